@@ -61,15 +61,30 @@ void FeatureChecker::visitEdge(edge_t& edge)
 
 void FeatureChecker::visitGuard(expression_t& guard)
 {
+    if (guard.empty())
+        return;
     switch (guard.get_kind()) {
     case Constants::LT:
     case Constants::LE:
     case Constants::EQ:
+    case Constants::NEQ:
+    case Constants::GE:
+    case Constants::GT:
+        // clock rates (x' == e) are judged by isRateDisallowedInSymbolic
+        if (guard.get(0).get_kind() == Constants::RATE || guard.get(1).get_kind() == Constants::RATE)
+            break;
         for (size_t i = 0; i < guard.get_size(); ++i) {
             if (guard.get(i).uses_fp())
                 supported_methods.symbolic = false;
         }
-    default: break;
+        break;
+    default:
+        // comparisons may sit in any conjunct or nested sub-expression
+        for (size_t i = 0; i < guard.get_size(); ++i) {
+            expression_t sub = guard.get(i);
+            visitGuard(sub);
+        }
+        break;
     }
 }
 
@@ -95,6 +110,9 @@ void FeatureChecker::visitLocation(location_t& location)
         return;
     if (isRateDisallowedInSymbolic(invariant))
         supported_methods.symbolic = false;
+    // floating-point comparisons are as unsupported in invariants as in guards
+    expression_t inv = invariant;
+    visitGuard(inv);
 }
 
 /**
